@@ -588,6 +588,7 @@ func ruleC20(c *Ctx) {
 			// inputs: first attempt raw = base64 decode of the argument, second = inflated
 			raw := "(*encoding/base64.Encoding).DecodeString(encoding/base64.StdEncoding, $encodedResponse)#0"
 			c.check(ap(ds[0].Data) == raw, "C20-R3", fname, "first attempt decodes the base64-decoded input", pos, raw, "first attempt decodes "+ap(ds[0].Data))
+			secondAttemptInput(c, "C20-R3", t, fname, ds)
 			// limit
 			// the bound that is actually in force when this path inflated: the limited reader's N is 5 MiB + 1 (however
 			// the helper is told about it)
@@ -845,4 +846,21 @@ func sharedRejection(t *Terminal, ev Val, depth int) (string, bool) {
 		return "a fresh error outside the size-limit path", false
 	}
 	return "error of " + shortName(cv.Callee), false
+}
+
+// secondAttemptInput: when a path decodes twice (raw attempt failed, inflate, decode again) the second decode consumes
+// what the limited inflate produced — not the still-compressed input again.
+func secondAttemptInput(c *Ctx, rule string, t *Terminal, fname string, ds []decode) {
+	if len(ds) < 2 {
+		return
+	}
+	d := ds[len(ds)-1]
+	data := d.Data
+	if d.El != nil {
+		return // decoded from a parsed element: where that came from is another rule's business
+	}
+	cv, ok := data.(*CallV)
+	good := ok && cv.Callee == "io.ReadAll" && cv.Idx == 0
+	c.check(good, rule, fname, "second attempt decodes the inflated bytes", c.P.InstrPos(d.Ev.Instr), "xml.Unmarshal(io.ReadAll(limited inflate))",
+		"after inflating, the decoder is run over "+ap(data)+" instead of the inflated bytes: a compressed message is not treated like its uncompressed twin")
 }
